@@ -53,15 +53,6 @@ def steer(case):
             if c['kind'] in F.TZ_KINDS:
                 c['kind'] = 'dt64ns'
                 steered.append(F_TZ)
-            if case['inc_rex'] and c['kind'] in F.STR_KINDS:
-                cells = []
-                for v in c['cells']:
-                    if v is not None and c03.has_nonascii_decimal(v):
-                        v = ''.join(c03.ASCII_FOR.get(ch, ch) for ch in v)
-                        if c03.F_NONASCII_DECIMAL not in steered:
-                            steered.append(c03.F_NONASCII_DECIMAL)
-                    cells.append(v)
-                c['cells'] = cells
     case['steered'] = steered
     return case
 
@@ -156,10 +147,6 @@ def run(case, ctx):
                                           [:300]))
             if ck in F.TZ_KINDS and k in ('min', 'max'):
                 out.known_hit(F_TZ, detail)
-            elif (k == 'rex' and col is not None and any(
-                    x is not None and c03.has_nonascii_decimal(x)
-                    for x in col['cells'])):
-                out.known_hit(c03.F_NONASCII_DECIMAL, detail)
             else:
                 out.violate('closure', '%s:%s' % (F.tdda_type(ck)
                                                   if ck != '?' else '?', k),
